@@ -423,17 +423,23 @@ static void run_c15(long cases) {
         long idx = g_opts.shard * 100000L + n;
         uint64_t seed = r.next();
         int scenario = (int)((n + g_opts.shard) % 11);
-        pid_t pid = fork();
-        if (pid == 0) { c15_batch(idx, n, seed); _exit(0); }
-        double end = lv::now() + 25.0 * lv::load_factor(); int status = 0; bool exited = false;
-        while (lv::now() < end) { pid_t w = waitpid(pid, &status, WNOHANG); if (w == pid) { exited = true; break; } lv::msleep(20); }
+        // a batch that the watchdog has to stop is run once more, with a bound more than twice as long, before it counts as wedged: on a machine
+        // that is busy enough (load 50+, seen) a batch of sixty 0.6 s requests over one connection does not fit the first bound
+        int status = 0; bool exited = false; pid_t pid = -1;
+        for (int attempt = 0; attempt < 2 && !exited; attempt++) {
+            if (attempt) { kill(pid, SIGKILL); waitpid(pid, &status, 0); count("batches_run_again_after_the_watchdog"); }
+            pid = fork();
+            if (pid == 0) { c15_batch(idx, n, seed); _exit(0); }
+            double end = lv::now() + (attempt ? 60.0 : 25.0) * lv::load_factor();
+            while (lv::now() < end) { pid_t w = waitpid(pid, &status, WNOHANG); if (w == pid) { exited = true; break; } lv::msleep(20); }
+        }
         if (!exited) { kill(pid, SIGKILL); waitpid(pid, &status, 0);
             viol(std::string("c15:client-hangs:scenario-") + std::to_string(scenario), "a batch (scenario " + std::to_string(scenario) + ") did not finish: the client is wedged (requests never settled or shutdown() never returns)", Json().num("i", idx).num("scenario", scenario).done()); }
         else if (WIFEXITED(status) && WEXITSTATUS(status) != 0) viol("c15:client-crashes:scenario-" + std::to_string(scenario), "the client process crashed (handler exit " + std::to_string(WEXITSTATUS(status)) + ", see the crash record) in scenario " + std::to_string(scenario), Json().num("i", idx).num("scenario", scenario).done());
         else if (WIFSIGNALED(status)) viol("c15:client-crashes:signal-" + std::to_string(WTERMSIG(status)), "the client process died with signal " + std::to_string(WTERMSIG(status)) + " in scenario " + std::to_string(scenario), Json().num("i", idx).num("scenario", scenario).done());
         g_evals++;
     }
-    g_counts.clear();
+    { long again = g_counts["batches_run_again_after_the_watchdog"]; g_counts.clear(); if (again) g_counts["batches_run_again_after_the_watchdog"] = again; }
 }
 
 // =====================================================================================
